@@ -66,6 +66,14 @@ def gen_project(rng, p_after=0.35):
     if rng.random() < 0.3:      # a consumer of a pattern nobody produces (files placed by the user)
         nid += 1
         tasks.append(tk(tid, pdeps=[9], prods=[nid]))
+        if rng.random() < 0.5:
+            # an ordinary task writes one more file into that directory as a plain path product, and a second
+            # consumer of the pattern waits for it: the two consumers start with different sets of files
+            tid += 1
+            tasks.append(tk(tid, deps=[rng.choice(sources)], prods=[10907]))
+            tid += 1
+            nid += 1
+            tasks.append(tk(tid, pdeps=[9], deps=[10907], prods=[nid]))
     # `after`: a task waits for another one that has a product and reads nothing another task writes
     if rng.random() < p_after:
         # (not a producer of a pattern: its resolved files would become `after` edges as well, which the model leaves out)
@@ -198,7 +206,10 @@ def o_c18(cimp, ctx):
             continue
         # a consumer that was executed, or reported unchanged, must reflect exactly the files matching now
         matching = sorted(n for n in files if any(10000 + 100 * p <= n < 10000 + 100 * p + 100 for p in t["pdeps"]))
-        if rep.get(i) in (O["SUCCESS"], O["SKIP_UNCHANGED"]) and cimp["exit"] == 0 and not cfg["dry_run"]:
+        # an ordinary task that wrote a matching file after this consumer was handled: the set moved on since
+        later = [u["id"] for u in tasks if u["id"] in starts and u["id"] in order and i in order and order.index(u["id"]) > order.index(i)
+                 and any(10000 + 100 * p <= q < 10000 + 100 * p + 100 for p in t["pdeps"] for q in u["prods"])]
+        if rep.get(i) in (O["SUCCESS"], O["SKIP_UNCHANGED"]) and cimp["exit"] == 0 and not cfg["dry_run"] and not later:
             dv = [files.get(d) for d in t["deps"]] + [files[n] for n in matching]
             if all(isinstance(x, int) for x in dv):
                 V = ctx["raw"]["mods"][str(t["module"])][0]
